@@ -645,16 +645,28 @@ func (e *Exec) doSerial(c *Call, ev *Event, targets *[]int) bool {
 			// a buffered adapter may read ahead only if the contract says so; the property demands exact consumption
 			posOK = rd.pos == len(b)
 		case 2:
-			cb := e.registerBuf(withSentinel)
+			in := withSentinel
+			if e.rng.Intn(3) == 0 {
+				in = append([]byte(nil), b...) // a buffer that holds exactly the stream
+			}
+			cb := e.registerBuf(in)
 			n, lerr = nb.FromBuffer(cb.bytes)
 			taint = true
 		case 3:
-			cb := e.registerBuf(withSentinel)
+			in := withSentinel
+			if e.rng.Intn(3) == 0 {
+				in = append([]byte(nil), b...)
+			}
+			cb := e.registerBuf(in)
 			n, lerr = nb.FromUnsafeBytes(cb.bytes)
 			taint = true
 		case 4:
-			lerr = nb.UnmarshalBinary(b)
+			src := append([]byte(nil), b...)
+			lerr = nb.UnmarshalBinary(src)
 			n = int64(len(b))
+			for i := range src { // UnmarshalBinary copies: what the caller does with the slice afterwards is the caller's business
+				src[i] = 0xFF
+			}
 		case 5:
 			n, lerr = nb.FromBase64(base64.StdEncoding.EncodeToString(b))
 		}
